@@ -1,12 +1,16 @@
-(* Correspondence check for C14: every strict prefix of a serialization makes load (and skip_option) return
+(* Correspondence check for C14 (the writer cases are described further down): every strict prefix of a serialization makes load (and skip_option) return
    the error the model predicts -- never a value, never a panic -- and every write budget below the size makes
    serialize return the sink's error after exactly the bytes that fit. *)
 From Coq Require Import NArith List Bool.
 Require Import SDS.Model.Mach SDS.Model.Bits SDS.Model.Raw SDS.Model.IntVec SDS.Model.BitVec SDS.Model.Ser.
-Require Import SDS.Spec.Stream SDS.Check.Common.
+Require Import SDS.Spec.Stream SDS.Spec.BitSeq SDS.Check.Common.
+Require Import SDS.Model.Writer SDS.Model.WriterFail.
 Require Export SDS.Model.Ser SDS.Check.SerCommon.
 Import ListNotations.
 Open Scope N_scope.
+
+(* a push of the raw writer: one bit, or the low [w] bits of [v] *)
+Inductive wcop := WB (b : bool) | WI (v w : N).
 
 Inductive case :=
 (* outcomes: run-length encoded outcome codes of T::load on the first k bytes, k = 0 .. size-1 *)
@@ -15,10 +19,92 @@ Inductive case :=
 | CSkipTrunc (path : N) (dbg : bool) (elems : list N) (outcomes : list (N * N))
 (* serialize into a sink that accepts b bytes, b = 0 .. size-1. kind 0: the sink then fails with its own error;
    kind 1: a `&mut [u8]` of b bytes (WriteZero). prefix_ok: the sink received exactly the first b bytes, every b *)
-| CSink (path : N) (dbg : bool) (t : ty) (r : recipe) (elems : list N) (kind : N) (outcomes : list (N * N)) (prefix_ok : bool).
+| CSink (path : N) (dbg : bool) (t : ty) (r : recipe) (elems : list N) (kind : N) (outcomes : list (N * N)) (prefix_ok : bool)
+(* One session of a real buffered file writer over a file that cannot take everything.
+   sk = 0: RLIMIT_FSIZE = L bytes (SIGXFSZ ignored) on a regular file; sk = 1: the file is /dev/full (L unused).
+   RawVectorWriter::with_buf_len(file, [], bl) then the pushes [ops] one by one / IntVectorWriter::with_buf_len(file,
+   width, items) then push of every x; pushing stops at the first push that panics; then close(); then the
+   writer is dropped. mem = Serialize::serialize of the vector built in memory by all the pushes.
+   Observed: created = 0 or the errno of the constructor's error (then nothing else happens);
+   panic = (index of the push that panicked, panic class); close = 0 or the errno of close()'s error;
+   open = is_open() after close(); len = len() after close(); file = the whole elements of the file read back
+   after the drop and after lifting the limit ([] for /dev/full). *)
+| CWRaw (dbg : bool) (sk L bl : N) (ops : list wcop) (mem : list N)
+        (created : N) (panic : option (N * N)) (close : N) (open : bool) (len : N) (file : list N)
+| CWInt (dbg : bool) (sk L width items : N) (xs : list N) (mem : list N)
+        (created : N) (panic : option (N * N)) (close : N) (open : bool) (len : N) (file : list N).
 
 Definition LIMIT : N := 320.
 Definition STRIDE : N := 13.
+
+(* ---- writers: model side (Model/WriterFail.v) ---- *)
+
+Definition to_wop (o : wcop) : wop := match o with WB b => PBit b | WI v w => PInt v w end.
+Definition sink_of (sk L : N) : fsink := if sk =? 0 then Limit L else Full.
+Definition errno (e : werr) : N := match e with EFBIG => 27 | ENOSPC => 28 end.
+Definition out_code {A} (o : wout A) : N := match o with WOk _ => 0 | WErr e _ => errno e | WPanic _ _ => 77 end.
+
+(* (created, panic, close, open, len, file) *)
+Definition wobs := (N * option (N * N) * N * bool * N * list N)%type.
+Definition NOT_CALLED : N := 99.
+
+Definition model_wraw (m : mode) (s : fsink) (bl : N) (ops : list wop) : res wobs :=
+  let* c := wf_with_buf_len m s [] bl in
+  match c with
+  | WOk w0 =>
+      let* (i, r) := wf_run s w0 ops 0 in
+      let panic := match r with WOk _ => None | WErr _ _ => Some (i, 77) | WPanic k _ => Some (i, pk_code k) end in
+      let* c2 := wf_close s (wout_state r) in
+      let w2 := wout_state c2 in
+      let* w3 := wf_drop s w2 in
+      Ok (0, panic, out_code c2, w_is_open w2, wlen w2, wdisk w3)
+  | other => Ok (out_code other, None, NOT_CALLED, false, 0, wdisk (wout_state other))
+  end.
+
+(* None: the constructor rejected the width *)
+Definition model_wint (m : mode) (s : fsink) (width items : N) (xs : list N) : option (res wobs) :=
+  match wf_iw_with_buf_len m s width items with
+  | None => None
+  | Some rc => Some (
+      let* c := rc in
+      match c with
+      | WOk iw0 =>
+          let* (i, r) := wf_iw_extend s iw0 xs 0 in
+          let panic := match r with WOk _ => None | WErr _ _ => Some (i, 77) | WPanic k _ => Some (i, pk_code k) end in
+          let* c2 := wf_iw_close s (wout_state r) in
+          let iw2 := wout_state c2 in
+          let* iw3 := wf_iw_drop s iw2 in
+          Ok (0, panic, out_code c2, w_is_open (iww iw2), iwlen iw2, wdisk (iww iw3))
+      | other => Ok (out_code other, None, NOT_CALLED, false, 0, wdisk (iww (wout_state other)))
+      end)
+  end.
+
+Definition wobs_eqb (a b : wobs) : bool :=
+  match a, b with
+  | (c1, p1, k1, o1, l1, f1), (c2, p2, k2, o2, l2, f2) =>
+      (c1 =? c2) && onn_eqb p1 p2 && (k1 =? k2) && Bool.eqb o1 o2 && (l1 =? l2) && nlist_eqb f1 f2
+  end.
+Definition wres_is (r : res wobs) (x : wobs) : bool := match r with Ok y => wobs_eqb y x | _ => false end.
+
+(* ---- writers: spec side. The property itself, on the observation alone (no model, no gen/):
+   a session that reported nothing (constructor Ok, no panic, close Ok) left exactly the in-memory serialization
+   - compared with what the crate serializes in memory AND with the naive encoding of the pushed bits -, closed,
+   within the limit; a session on a file that can take the complete serialization reported nothing;
+   /dev/full always reports. ---- *)
+
+Definition vbits (v w : N) : list bool := firstn (N.to_nat w) (wbits v).
+Definition wcop_bits (o : wcop) : list bool := match o with WB b => [b] | WI v w => vbits v w end.
+Definition enc_bits (B : list bool) : list N := lenB B :: (lenB B + 63) / 64 :: words_of_bits B.
+
+Definition wspec (sk L : N) (mem enc : list N) (o : wobs) : bool :=
+  match o with
+  | (created, panic, close, open, len, file) =>
+      let silent := (created =? 0) && (match panic with None => true | Some _ => false end) && (close =? 0) in
+      let fits := (sk =? 0) && (8 * lenN enc <=? L) in
+      nlist_eqb mem enc &&
+      (if silent then nlist_eqb file enc && negb open && fits
+       else negb fits && ((created =? 0) || ((close =? NOT_CALLED) && negb open)))
+  end.
 
 Definition check (c : case) : N :=
   match c with
@@ -62,6 +148,20 @@ Definition check (c : case) : N :=
         end in
       let s_ok := (lenN obs =? total) && forallb code_is_err obs && prefix_ok in
       code m_ok s_ok
+  | CWRaw dbg sk L bl ops mem created panic close open len file =>
+      let o := (created, panic, close, open, len, file) in
+      let m_ok := wres_is (model_wraw (mode_of dbg) (sink_of sk L) bl (map to_wop ops)) o in
+      let s_ok := wspec sk L mem (enc_bits (flat_map wcop_bits ops)) o in
+      code m_ok s_ok
+  | CWInt dbg sk L width items xs mem created panic close open len file =>
+      let o := (created, panic, close, open, len, file) in
+      let m_ok := match model_wint (mode_of dbg) (sink_of sk L) width items xs with
+                  | Some r => wres_is r o
+                  | None => false
+                  end in
+      let s_ok := (1 <=? width) && (width <=? 64) &&
+                  wspec sk L mem (lenN xs :: width :: enc_bits (flat_map (fun x => vbits x width) xs)) o in
+      code m_ok s_ok
   end.
 
 Definition explain (c : case) :=
@@ -72,5 +172,5 @@ Definition explain (c : case) :=
   | CSkipTrunc path dbg elems outcomes =>
       let bytes := stream elems [] in
       map (fun k => io_code (skip_option (mode_of dbg) (firstn k bytes))) (seq 0 (length bytes))
-  | CSink path dbg t r elems kind outcomes prefix_ok => []
+  | _ => []
   end.
